@@ -1,5 +1,6 @@
 """Per-property decision procedures. Each check_<ID>(tier, seed) returns the process exit code."""
 import json, os, subprocess, time, glob, shutil
+from concurrent.futures import ThreadPoolExecutor
 import vlib
 from vlib import Report, ToolError, log, tlc_mc, mc_must_pass, vacuity_check, validate_traces, run_vh, TRACES
 
@@ -68,21 +69,69 @@ READER_ACTIONS = ["Call", "RMBytes", "RMEof", "RMErr", "RMOverrun", "Return", "A
                   "SetMark", "SetMarkTo", "SetChunk", "CheckIoError"]
 
 
-def reader_histories(rep, tier, seed, prefix, panics, shards, per_shard, ops=40, maxlen=48, scan=0, release=False):
+DIED = (101, 134, 139)
+
+
+def _hist_shards(rep, sub, base_args, prefix, shards, per_shard, seed, release=False):
+    """Run `vh <sub>` history shards in parallel.  A driver process that dies (abort, segfault, double free ...) is data, not a
+    tool error: the histories that kill it are isolated one per process and reported as violations, the remaining histories
+    of the shard are recorded again without them."""
     _clean_traces(prefix)
-    paths = []
-    procs = []
     exe = vlib.build_harness(release)
-    for s in range(shards):
-        p = os.path.join(TRACES, "%s%d.ndjson" % (prefix, s))
-        paths.append(p)
-        cmd = [exe, "reader-hist", "--scan", str(scan), "--out", p, "--seed", str(seed), "--first", str(s * per_shard),
-               "--count", str(per_shard), "--ops", str(ops), "--len", str(maxlen)] + (["--panics"] if panics else [])
-        procs.append(subprocess.Popen(cmd, cwd=vlib.ROOT, stdout=subprocess.PIPE, stderr=subprocess.PIPE, text=True))
-    for pr in procs:
+    paths, procs = [], []
+
+    def cmd(path, first, count):
+        return [exe, sub, "--out", path, "--seed", str(seed), "--first", str(first), "--count", str(count)] + base_args
+
+    for s_ in range(shards):
+        p_ = os.path.join(TRACES, "%s%d.ndjson" % (prefix, s_))
+        paths.append(p_)
+        procs.append(subprocess.Popen(cmd(p_, s_ * per_shard, per_shard), cwd=vlib.ROOT, stdout=subprocess.PIPE,
+                                      stderr=subprocess.PIPE, text=True))
+    for si, pr in enumerate(procs):
         out, err = pr.communicate(timeout=1800)
-        if pr.returncode != 0:
-            raise ToolError("vh reader-hist failed: %s" % err[-1500:])
+        if pr.returncode == 0:
+            continue
+        if not (pr.returncode < 0 or pr.returncode in DIED):
+            raise ToolError("vh %s failed (exit %d): %s" % (sub, pr.returncode, err[-1500:]))
+        # isolate: one history per process
+        ids = list(range(si * per_shard, (si + 1) * per_shard))
+        tmpd = os.path.join(TRACES, "%siso%d" % (prefix, si))
+        os.makedirs(tmpd, exist_ok=True)
+
+        def one(i):
+            tp = os.path.join(tmpd, "%d.ndjson" % i)
+            r = subprocess.run(cmd(tp, i, 1), cwd=vlib.ROOT, stdout=subprocess.PIPE, stderr=subprocess.PIPE, text=True, timeout=600)
+            return i, r.returncode, r.stderr[-300:], tp
+
+        with ThreadPoolExecutor(max_workers=12) as ex:
+            results = list(ex.map(one, ids))
+        culprits = [r for r in results if r[1] != 0]
+        if not culprits:
+            raise ToolError("vh %s died (exit %d) but no single history reproduces it: %s" % (sub, pr.returncode, err[-800:]))
+        for (i, rc, tail, tp) in culprits[:5]:
+            recs = []
+            try:
+                with open(tp) as fh:
+                    recs = [json.loads(x) for x in fh.read().splitlines() if x.strip()][:60]
+            except Exception:
+                pass
+            rep.violation({"kind": "process-died", "exit": rc, "object": sub, "event": "abort", "op": "", "spec": "", "panic": False,
+                           "parser": ""},
+                          {"spec": None, "how_to_replay": "vh %s --seed %d --first %d --count 1 %s" % (sub, seed, i, " ".join(base_args)),
+                           "exit_status": rc, "stderr_tail": tail, "records_before_death": recs})
+        with open(paths[si], "w") as fh:
+            for (i, rc, tail, tp) in results:
+                if rc == 0:
+                    with open(tp) as src:
+                        fh.write(src.read())
+        shutil.rmtree(tmpd, ignore_errors=True)
+    return paths
+
+
+def reader_histories(rep, tier, seed, prefix, panics, shards, per_shard, ops=40, maxlen=48, scan=0, release=False):
+    paths = _hist_shards(rep, "reader-hist", ["--scan", str(scan), "--ops", str(ops), "--len", str(maxlen)] + (["--panics"] if panics else []),
+                         prefix, shards, per_shard, seed, release)
     res = validate_traces(prefix, "Trace_Reader", "Trace_Reader.cfg", paths)
     _report_rejects(rep, "Trace_Reader", res["rejected"],
                     "vh reader-hist --seed %d (history id in reset record); ./check %s --replay <this file>" % (seed, rep.prop))
@@ -154,8 +203,14 @@ def check_C02(tier, seed):
     replay_reader(rep, tier, seed)
     if tier == QUICK:
         reader_histories(rep, tier, seed, "c02_", False, 12, 500)
+        parser_runs(rep, "sched", seed + 20, "c02p_", 8, 40)
     else:
         reader_histories(rep, tier, seed, "c02_", False, 14, 8000, ops=60, maxlen=96)
+        parser_runs(rep, "sched", seed + 20, "c02p_", 14, 500)
+    rep.cov["parser_level"] = ("every parser constructed through its own entry points (new over a DeferredReader, from_read, "
+                               "from_buf_reader over a BufReader that already holds input, from_boxed_dyn_read) under varied "
+                               "read schedules: all runs of one input must hand out the items of the reference run "
+                               "(ParserContract), so bytes lost or duplicated on the way into the parser are seen")
     rep.cov["rule"] = ("model: exhaustive BFS of DeferredReader (design) incl. refinement of ReaderAbs; traces: random "
                        "operation histories of the real DeferredReader over a scheduled source, each validated record by "
                        "record against ReaderAbs with the full exposed state compared after every call; a history is "
@@ -172,19 +227,7 @@ WRITER_ACTIONS = ["Write", "IntWrite", "PtrWrite", "Flush", "FlushDefer", "Check
 
 
 def writer_histories(rep, tier, seed, prefix, shards, per_shard, ops=30, big=True):
-    _clean_traces(prefix)
-    paths, procs = [], []
-    exe = vlib.build_harness(False)
-    for s in range(shards):
-        p = os.path.join(TRACES, "%s%d.ndjson" % (prefix, s))
-        paths.append(p)
-        cmd = [exe, "writer-hist", "--out", p, "--seed", str(seed), "--first", str(s * per_shard),
-               "--count", str(per_shard), "--ops", str(ops)] + ([])
-        procs.append(subprocess.Popen(cmd, cwd=vlib.ROOT, stdout=subprocess.PIPE, stderr=subprocess.PIPE, text=True))
-    for pr in procs:
-        out, err = pr.communicate(timeout=1800)
-        if pr.returncode != 0:
-            raise ToolError("vh writer-hist failed: %s" % err[-1500:])
+    paths = _hist_shards(rep, "writer-hist", ["--ops", str(ops)], prefix, shards, per_shard, seed)
     res = validate_traces(prefix, "Trace_Writer", "Trace_Writer.cfg", paths)
     _report_rejects(rep, "Trace_Writer", res["rejected"],
                     "vh writer-hist --seed %d (history id in reset record); ./check %s --replay <this file>" % (seed, rep.prop))
